@@ -30,7 +30,7 @@ CONFIGS = ['swift_types', 'swift_types_objc', 'swift_client', 'swift_client_objc
 
 
 def time_limit(tier):
-    return 900 if tier == 'quick' else 5400
+    return common.default_limit(tier)
 
 
 def budget(tier):
